@@ -15,7 +15,7 @@ Lemma server_handle_packet s b clock p de1 de3 :
   get_next_message (sv_de s) b = (de1, DMsg p) -> get_next_message de1 [] = (de3, DNone) ->
   (forall s0, sv_de (fst (h_message s0 p clock)) = sv_de s0) ->
   exists s0 pre, same_core s s0 /\ sv_de s0 = sv_de s /\ ser_ok (sv_ser s0) /\ events pre = [] /\
-    (ack_window (sv_ack s) = None -> pre = [] /\ sv_ser s0 = sv_ser s) /\
+    (snd (ack_step (sv_ack s) (lenN b)) = None -> pre = [] /\ sv_ser s0 = sv_ser s) /\
     server_handle_input s b clock =
       (let '(s1, r) := h_message (upd_de s0 de1) p clock in
        match r with ROk rs => (upd_de s1 de3, ROk (pre ++ rs)) | _ => (s1, r) end).
@@ -31,7 +31,7 @@ Proof.
   destruct (ack_step (sv_ack s) (lenN b)) as [a [n|]] eqn:Ea.
   - destruct (ack_send_ok (sv_ser s) n clock Hser) as [bk [ser2 [Ek Hser2]]]. rewrite Ek.
     exists (upd_ack (upd_ser s ser2) a), [SPacket bk false]. split; [repeat split|]. split; [reflexivity|]. split; [exact Hser2|]. split; [reflexivity|].
-    split; [intros Hw; unfold ack_step in Ea; rewrite Hw in Ea; discriminate|]. apply Hloop. reflexivity.
+    split; [intros Hw; cbn [snd] in Hw; discriminate Hw|]. apply Hloop. reflexivity.
   - exists (upd_ack s a), []. split; [repeat split|]. split; [reflexivity|]. split; [exact Hser|]. split; [reflexivity|].
     split; [intros _; split; reflexivity|]. apply Hloop. reflexivity.
 Qed.
@@ -133,7 +133,7 @@ Proof.
     split; [cbn [sv_reqs upd_de upd_reqs]; rewrite A3; apply ChunkSpecProofs.lookup_insert_same|].
     split; [cbn [sv_connected upd_de upd_reqs upd_objenc]; exact A4|]. split; [cbn [sv_fms upd_de upd_reqs upd_objenc]; exact A8|].
     split; [reflexivity|]. split; [exact HL2|]. split; [exact Hs0|]. split; [reflexivity|]. split; [reflexivity|].
-    intros Hw. destruct (Hnoack Hw) as [-> Hser0]. split; [exact Hser0|]. rewrite A3. reflexivity.
+    intros Hw. destruct (Hnoack ltac:(unfold ack_step; rewrite Hw; reflexivity)) as [-> Hser0]. split; [exact Hser0|]. rewrite A3. reflexivity.
 Qed.
 
 (* ---------------------------------------------------------------- connect accepted: server -> client *)
@@ -143,6 +143,7 @@ Lemma client_handle_packet c b clock p de1 de3 :
   (forall c0, cl_de (fst (ch_message c0 p clock)) = cl_de c0) ->
   exists c0 pre, cl_cfg c0 = cl_cfg c /\ cl_next_tr c0 = cl_next_tr c /\ cl_trs c0 = cl_trs c /\ cl_state c0 = cl_state c /\
     cl_app c0 = cl_app c /\ cl_stream c0 = cl_stream c /\ cl_de c0 = cl_de c /\ ser_ok (cl_ser c0) /\ cevents pre = [] /\
+    (snd (ack_step (cl_ack c) (lenN b)) = None -> pre = [] /\ cl_ser c0 = cl_ser c) /\
     client_handle_input c b clock =
       (let '(c1, r) := ch_message (cupd_de c0 de1) p clock in
        match r with COk rs => (cupd_de c1 de3, COk (pre ++ rs)) | _ => (c1, r) end).
@@ -155,12 +156,12 @@ Proof.
   { intros fuel c0 acc Hd. cbn [ch_loop]. rewrite Hd, G1. pose proof (Hframe (cupd_de c0 de1)) as Hf. change (cl_de (cupd_de c0 de1)) with de1 in Hf.
     destruct (ch_message (cupd_de c0 de1) p clock) as [c1 r]. cbn [fst] in Hf. destruct r as [rs|e|]; try reflexivity.
     rewrite Hf, G2. reflexivity. }
-  destruct (ack_step (cl_ack c) (lenN b)) as [a [n|]].
+  destruct (ack_step (cl_ack c) (lenN b)) as [a [n|]] eqn:Ea.
   - destruct (ack_send_ok (cl_ser c) n clock Hser) as [bk [ser2 [Ek Hser2]]]. rewrite Ek.
     exists (cupd_ack (cupd_ser c ser2) a), [CPacket bk false]. repeat (split; [reflexivity|]). split; [exact Hser2|]. split; [reflexivity|].
-    apply Hloop. reflexivity.
+    split; [intros Hw; cbn [snd] in Hw; discriminate Hw|]. apply Hloop. reflexivity.
   - exists (cupd_ack c a), []. repeat (split; [reflexivity|]). split; [exact Hser|]. split; [reflexivity|].
-    apply Hloop. reflexivity.
+    split; [intros _; split; reflexivity|]. apply Hloop. reflexivity.
 Qed.
 
 Definition accept_info (s : server) (app : bytes) : value :=
@@ -227,7 +228,7 @@ Proof.
     rewrite Hs.
     assert (Hframe : forall c0, cl_de (fst (ch_message c0 m cclock)) = cl_de c0).
     { intros c0. unfold ch_message. cbn [m m_tid m_data]. rewrite Hof. apply ch_command_de. }
-    destruct (client_handle_packet c b cclock m de1 de3 Hcser G1 G2 Hframe) as [c0 [pre [E1 [E2 [E3 [E4 [E5 [E6 [E7 [Hs0 [Hpre Hin]]]]]]]]]]].
+    destruct (client_handle_packet c b cclock m de1 de3 Hcser G1 G2 Hframe) as [c0 [pre [E1 [E2 [E3 [E4 [E5 [E6 [E7 [Hs0 [Hpre [_ Hin]]]]]]]]]]]].
     (* the client's handler *)
     assert (Hm : exists b1 b2 ser2,
                ch_message (cupd_de c0 de1) m cclock =
